@@ -248,7 +248,7 @@ def walk(items):
             yield from walk(it["items"])
 
 
-def gen_program(r, n=None, feats=None, lo=3, hi=14, types=None, p_rev=1.0, p_nodefault=0.0):
+def gen_program(r, n=None, feats=None, lo=3, hi=14, types=None, p_rev=1.0, p_nodefault=0.0, p_shuffle=0.3):
     """Returns a structured program dict."""
     if n is None:
         n = r.randint(lo, hi)
@@ -309,6 +309,17 @@ def gen_program(r, n=None, feats=None, lo=3, hi=14, types=None, p_rev=1.0, p_nod
             if e["defaults"][0][1] is None:
                 e["defaults"] = []
             prog["items"].append(e)
+    # The hidden rank order (what may depend on what) is fixed now; the *definition* order need not follow it:
+    # Kconfig allows forward references (`config GATED depends on GATE` above `config GATE`), and sdkconfig files,
+    # unique_defined_syms and every "resolve in file order" loop then meet dependents before their dependencies.
+    prog["rank"] = {c["name"]: i for i, c in enumerate(configs)}
+    if len(prog["items"]) > 1 and r.random() < p_shuffle:
+        its = prog["items"]
+        if r.random() < 0.5:
+            r.shuffle(its)
+        else:
+            i = r.randrange(len(its))
+            its.insert(r.randrange(len(its)), its.pop(i))
     return prog
 
 
@@ -332,6 +343,11 @@ def sym_table(prog):
                 rec(it["items"], inchoice)
 
     rec(prog["items"], False)
+    hidden = prog.get("rank")
+    if hidden:
+        base = len(hidden)
+        for i, (n, e) in enumerate(sorted(tab.items(), key=lambda kv: kv[1]["rank"])):
+            e["rank"] = hidden.get(n, base + i)
     return tab
 
 
